@@ -7,20 +7,54 @@ From ASV.C07 Require Import Model Proofs.
    it - for every rule list, every information function and every detector. *)
 Theorem C07_cache_transparent : forall (R I O : Type) (cutoff_of : R -> Z) (info : Z -> I) (detect : R -> I -> O) rules,
   eval_rules cutoff_of info detect [] rules = map (fun r => detect r (info (cutoff_of r))) rules.
-Proof. intros. apply eval_rules_transparent. apply cache_ok_nil. Qed.
+Proof. exact @cache_transparent_nil. Qed.
 Print Assumptions C07_cache_transparent.
 
 Theorem C07_rule_order : forall (R I O : Type) (cutoff_of : R -> Z) (info : Z -> I) (detect : R -> I -> O) rules rules',
   Permutation rules rules' ->
   Permutation (combine rules (eval_rules cutoff_of info detect [] rules))
               (combine rules' (eval_rules cutoff_of info detect [] rules')).
-Proof. intros. apply eval_rules_perm. assumption. Qed.
+Proof. exact @eval_rules_perm. Qed.
 Print Assumptions C07_rule_order.
 
 Theorem C07_rule_subselection : forall (R I O : Type) (cutoff_of : R -> Z) (info : Z -> I) (detect : R -> I -> O) rules r,
   In r rules -> In (r, detect r (info (cutoff_of r))) (combine rules (eval_rules cutoff_of info detect [] rules)).
-Proof. intros. apply eval_rules_subselection. assumption. Qed.
+Proof. exact @eval_rules_subselection. Qed.
 Print Assumptions C07_rule_subselection.
+
+(* The sanctioned cross-rule effect.  remove_redundant_protoclusters (transcribed with its
+   flag/continue/break loops) keeps exactly the clusters for which no cluster of a superior rule
+   contains the core or meets its range of core genes - a condition on the SET of clusters ... *)
+Theorem C07_redundancy_spec : forall sup cs c,
+  In c (remove_redundant sup cs) <->
+  In c cs /\ ~ (exists o, In o cs /\ In (pc_rule o) (superiors_of sup (pc_rule c)) /\
+                  (contains (pc_core o) (pc_core c) = true \/
+                   (pc_first c <= pc_last o /\ pc_first o <= pc_last c))).
+Proof. exact remove_redundant_spec. Qed.
+Print Assumptions C07_redundancy_spec.
+
+(* ... hence the surviving clusters do not depend on the order in which clusters (that is: rules,
+   cluster_type_hits follows the rule list) are listed, and a rule without superiors keeps all
+   of its clusters whatever other rules are in the ruleset *)
+Theorem C07_redundancy_order : forall sup cs cs',
+  Permutation cs cs' -> Permutation (remove_redundant sup cs) (remove_redundant sup cs').
+Proof. exact remove_redundant_perm. Qed.
+Print Assumptions C07_redundancy_order.
+
+Theorem C07_redundancy_no_superiors : forall sup cs c,
+  In c cs -> superiors_of sup (pc_rule c) = [] -> In c (remove_redundant sup cs).
+Proof. exact remove_redundant_no_superiors. Qed.
+Print Assumptions C07_redundancy_no_superiors.
+
+(* non-vacuity: the chain low(2) < mid(1) < top(0) with the parser's closed SUPERIORS lists; mid
+   overlaps top and covers low, top and low do not touch: only top survives, in both orders *)
+Example C07_redundancy_chain_example :
+  let sup := [(0, []); (1, [0]); (2, [0; 1])] in
+  let top := mkPc 0 [mkPart 3200 3800 1] 1 1 in
+  let mid := mkPc 1 [mkPart 2000 3800 1] 0 1 in
+  let low := mkPc 2 [mkPart 2000 3000 1] 0 0 in
+  remove_redundant sup [top; mid; low] = [top] /\ remove_redundant sup [low; mid; top] = [top].
+Proof. split; vm_compute; reflexivity. Qed.
 
 (* Rotation, primitive level (partial: parts that do not cross the new origin): distance between
    two parts is unchanged when both are moved by the same amount, on a line and on a ring of any
@@ -30,6 +64,87 @@ Print Assumptions C07_rule_subselection.
 Theorem C07_rotation_distance_partial : forall k a b w, pdist (shiftp k a) (shiftp k b) w = pdist a b w.
 Proof. exact pdist_shift. Qed.
 Print Assumptions C07_rotation_distance_partial.
+
+(* C07_rotation_primitives.  (a) overlap and containment of locations (any number of parts) are
+   unchanged when every part moves by the same amount; *)
+Theorem C07_rotation_overlap_contains_partial : forall k a b,
+  overlap (shiftl k a) (shiftl k b) = overlap a b /\ contains (shiftl k a) (shiftl k b) = contains a b.
+Proof. exact rotation_overlap_contains. Qed.
+Print Assumptions C07_rotation_overlap_contains_partial.
+
+(* (b) for every rotation 0 <= k < N of the origin and every two parts of the record that the new
+   origin does not cut - including a pair that the new origin SEPARATES (one part moves by k, the
+   other by k - N): overlap, containment and the ring distance are the same in both frames.  With
+   C01_met ("closer than the cutoff" is all a rule condition sees of coordinates) and C03_chain
+   (cores = components of the proximity graph) this is the rotation invariance of the proximity
+   graph on uncut genes. *)
+Theorem C07_rotation_ring_primitives : forall N k a b,
+  0 <= k < N -> in_rec N a -> in_rec N b -> uncut N k a -> uncut N k b ->
+  in_rec N (rotp N k a) /\
+  part_overlap (rotp N k a) (rotp N k b) = part_overlap a b /\
+  part_contains (rotp N k a) (rotp N k b) = part_contains a b /\
+  pdist (rotp N k a) (rotp N k b) (Some N) = pdist a b (Some N) /\
+  dist [rotp N k a] [rotp N k b] (Some N) = dist [a] [b] (Some N).
+Proof. exact rotation_ring_primitives. Qed.
+Print Assumptions C07_rotation_ring_primitives.
+
+(* (c) connect_locations on a ring: single-part areas whose hull is at most half the record are
+   connected into the same hull as on a line (no wrap is chosen), and connecting commutes with
+   moving all of them by k (partial: the hull does not span the origin in either frame) *)
+Theorem C07_rotation_connect_partial : forall locs N k,
+  locs <> [] -> P4.simple_locs locs -> Forall P4.wf_loc locs -> 0 < N ->
+  lmax (map lend locs) - lmin (map lstart locs) <= N / 2 ->
+  connect_locations locs (Some N) = connect_locations locs None /\
+  exists h, connect_locations locs (Some N) = Ok [h] /\
+            connect_locations (map (shiftl k) locs) (Some N) = Ok [shiftp k h].
+Proof. exact rotation_connect. Qed.
+Print Assumptions C07_rotation_connect_partial.
+
+(* (d) Record.extend_location on a circular record (cutoff window, neighbourhood) commutes with the
+   move while the extension stays inside the record in both frames (partial: no wrap) *)
+Theorem C07_rotation_extend_partial : forall p d N k,
+  0 <= d -> ps p < pe p -> 0 <= ps p - d -> pe p + d <= N -> 0 <= ps p + k - d -> pe p + k + d <= N ->
+  exists r, extend_location [p] d N true = Ok r /\ extend_location (shiftl k [p]) d N true = Ok (shiftl k r).
+Proof. exact extend_shift_ring. Qed.
+Print Assumptions C07_rotation_extend_partial.
+
+(* C07_rotation_chain (partial: both origins lie outside the span of the rule's anchoring genes, so
+   the change of frame moves every anchor by the same k): the sweep of find_protoclusters (model of
+   C03) forms the same groups with the same members, moved by k - for every cutoff and every set
+   of anchors.  With C03_chain_linear the groups are the maximal cutoff-chains in both frames.
+   The origin-spanning paths (first/last core merge, merge_over_origin) are not modelled. *)
+Theorem C07_rotation_chain_partial : forall N c k anchors,
+  Forall (P3.wf N) anchors -> Forall (P3.wf N) (map (shifti k) anchors) ->
+  M3.sweep N c (sort_by M3.itv_lt (map (shifti k) anchors))
+  = map (shiftg k) (M3.sweep N c (sort_by M3.itv_lt anchors)).
+Proof. exact sweep_shift. Qed.
+Print Assumptions C07_rotation_chain_partial.
+
+(* non-vacuity: a pair separated by the new origin (ring distance 15 in both frames, the line
+   distance changes from 75 to 15); a chain moved by 5000; connect/extend away from the origin,
+   and - outside the proved domain - an origin-spanning connect computed by the model *)
+Example C07_rotation_examples :
+  let a := mkPart 5 10 1 in let b := mkPart 90 95 1 in
+  (in_rec 100 a /\ in_rec 100 b /\ uncut 100 10 a /\ uncut 100 10 b) /\
+  rotp 100 10 a = mkPart 15 20 1 /\ rotp 100 10 b = mkPart 0 5 1 /\
+  pdist a b (Some 100) = 10 /\ pdist (rotp 100 10 a) (rotp 100 10 b) (Some 100) = 10 /\
+  pdist_line a b = 80 /\ pdist_line (rotp 100 10 a) (rotp 100 10 b) = 10.
+Proof. cbv zeta. split; [unfold in_rec, uncut; cbn; lia|]. repeat split; vm_compute; reflexivity. Qed.
+
+Example C07_rotation_chain_example :
+  let anchors := [M3.mkItv 2099 2150; M3.mkItv 100 1100; M3.mkItv 9000 9100] in
+  Forall (P3.wf 100000) anchors /\ Forall (P3.wf 100000) (map (shifti 5000) anchors) /\
+  M3.sweep 100000 1000 (sort_by M3.itv_lt (map (shifti 5000) anchors))
+  = [(14000, 14100, [M3.mkItv 14000 14100]); (5100, 7150, [M3.mkItv 7099 7150; M3.mkItv 5100 6100])].
+Proof. cbv zeta. split; [repeat constructor; cbn; lia|]. split; [repeat constructor; cbn; lia|]. vm_compute. reflexivity. Qed.
+
+Example C07_rotation_connect_extend_example :
+  connect_locations [[mkPart 10 15 1]; [mkPart 22 25 1]] (Some 100) = Ok [mkPart 10 25 1] /\
+  extend_location [mkPart 10 15 1] 5 100 true = Ok [mkPart 5 20 1] /\
+  (* outside the proved domain (the result spans the origin), as computed by the model: *)
+  connect_locations [[mkPart 90 95 1]; [mkPart 2 5 1]] (Some 100) = Ok [mkPart 90 100 1; mkPart 0 5 1] /\
+  extend_location [mkPart 2 5 1] 5 100 true = Ok [mkPart 97 100 1; mkPart 0 10 1].
+Proof. repeat split; vm_compute; reflexivity. Qed.
 
 Example C07_rotate_example :
   rotate_loc 100 30 [mkPart 80 95 1] = Ok [mkPart 10 25 1] /\
